@@ -71,7 +71,7 @@ class LifecycleScenario(Scenario):
         for i, script in enumerate(P.get('startup', [['ok']])):
             # sync_startup: the handlers are plain `def`s, which kopf runs in threads (uncancellable while they run)
             make = scripted_sync if P.get('sync_startup') else scripted
-            kopf.on.startup(id=f'st{i}', registry=reg, backoff=1.0)(make(env, f'st{i}', parse_script(script)))
+            kopf.on.startup(id='startup' if P.get('same_startup_id') else f'st{i}', registry=reg, backoff=1.0)(make(env, f'st{i}', parse_script(script)))     # (same_startup_id: two functions that happen to carry one id - same name in two modules)
         for i, script in enumerate(P.get('cleanup', [['ok']])):
             kopf.on.cleanup(id=f'cl{i}', registry=reg, backoff=1.0)(scripted(env, f'cl{i}', parse_script(script)))
         kopf.on.create('kopfexamples', id='c1', registry=reg)(scripted(env, 'c1', parse_script([P.get('handler', 'ok~2')])))
@@ -147,13 +147,16 @@ class LifecycleScenario(Scenario):
         all_started = len(ok_times) == len(startup_scripts)
         t_started = max(ok_times.values()) if all_started and ok_times else None
         first_api = api[0][0] if api else None
+        nk0 = {'pattern': 'namesake-startup-handlers'} if P.get('same_startup_id') and startup_fails else {}
         if first_api is not None and (t_started is None or first_api < t_started):
             out.append(self.viol(env, 'api-before-startup', f"API request {api[0][2]} by {api[0][1]} at t={first_api}, startup handlers succeeded at {t_started} "
-                                                            f"(calls: {[(t, p['id'], p['outcome']) for t, p in st_calls]})", clause='startup-first'))
+                                                            f"(calls: {[(t, p['id'], p['outcome']) for t, p in st_calls]})", clause='startup-first', **nk0))
         if startup_fails:
+            # the structural pattern of a known defect: several startup handlers under ONE id - their outcomes are kept by id, the later one's wins
+            nk = {'pattern': 'namesake-startup-handlers'} if P.get('same_startup_id') else {}
             if api:
                 out.append(self.viol(env, 'api-after-failed-startup', f"a startup handler failed permanently, yet {len(api)} API requests were made: {api[:3]}",
-                                     clause='fail-fast'))
+                                     clause='fail-fast', **nk))
             finals = {}
             for (t, p) in st_calls:
                 if p['outcome'].split(',')[0].split('~')[0] in ('ok', 'perm'):
@@ -161,11 +164,11 @@ class LifecycleScenario(Scenario):
             concluded = max(finals.values()) if len(finals) == len(startup_scripts) else None
             interrupted = any(k in ('stop', 'cancel') and (concluded is None or t <= concluded) for t, k, p in obs)
             if exit_ev is not None and exit_ev[1]['how'] == 'returned' and not interrupted:
-                out.append(self.viol(env, 'failed-startup-not-raised', "a startup handler failed permanently but operator() returned normally", clause='fail-fast'))
+                out.append(self.viol(env, 'failed-startup-not-raised', "a startup handler failed permanently but operator() returned normally", clause='fail-fast', **nk))
             if exit_ev is None and not env.owes():
-                out.append(self.viol(env, 'failed-startup-lingers', "a startup handler failed permanently but operator() never returned", clause='fail-fast'))
+                out.append(self.viol(env, 'failed-startup-lingers', "a startup handler failed permanently but operator() never returned", clause='fail-fast', **nk))
             if self.op.ready_flag is not None and self.op.ready_flag.is_set():
-                out.append(self.viol(env, 'ready-after-failed-startup', "the ready flag is raised although startup failed", clause='ready'))
+                out.append(self.viol(env, 'ready-after-failed-startup', "the ready flag is raised although startup failed", clause='ready', **nk))
             return out
         if self.op.ready_flag is not None and self.op.ready_flag.is_set() and t_started is None:
             out.append(self.viol(env, 'ready-before-startup', "the ready flag is raised although not all startup handlers succeeded", clause='ready'))
@@ -298,6 +301,10 @@ def scenarios(tier: str) -> tuple[list[LifecycleScenario], list[LifecycleScenari
     for trig, at in itertools.product(('stop', 'cancel', 'break:kopfexamples'), (1.0, 7.0)):
         scripted_.append(LifecycleScenario(daemon=None, handler='ok~6', objects=4, worker_limit=1, user=[(at, trig)], horizon=at + 50.0))
         scripted_.append(LifecycleScenario(daemon=None, handler='ok~6', objects=5, worker_limit=2, user=[(at, trig)], horizon=at + 50.0))
+    # two startup handlers that carry one id (two functions of the same name): one fails for good, the other succeeds - in both orders
+    for st in ([['perm'], ['ok']], [['ok'], ['perm']], [['perm'], ['temp1', 'ok']]):
+        for user in ([], [(12.0, 'stop')]):
+            scripted_.append(LifecycleScenario(startup=st, same_startup_id=True, daemon=None, user=user, horizon=50.0))
     # the explorer places the trigger anywhere (incl. during startup and shutdown sequences)
     for st, dm, trig in itertools.product([[['ok']], [['temp1', 'ok']]], (daemons[1], daemons[2]), ('stop', 'cancel')):
         searched.append(LifecycleScenario(startup=st, daemon=dm, user=[(30.0, trig)], horizon=70.0, early_user=True))
